@@ -293,9 +293,9 @@ def obligations(tier):
     n = 3 if quick else 4
     reach = ["end", "served", "unmatched", "option-change", "served-with-reuse", "unmatched-while-active/kill"]
     obs = [
-        Symx("key-matrix", lambda X: h_matrix(X, not quick),
+        Symx("key-matrix", lambda X: h_matrix(X, False),
              bounds=f"1 recording x 1 request over {len(SHAPES)} near-colliding shapes x all 2^6 combinations of the matching options x "
-                    f"{{options set before load, recording re-indexed after load}}" + ("" if quick else " x extra in {forward, kill, 404}"),
+                    f"{{options set before load, recording re-indexed after load}}",
              encoded=ENCODED, must_reach=["end", "served", "unmatched"], parallel_depth=2),
         Symx("history-query-headers", lambda X: h_history(X, REC_QUICK, 3, OPS_QUICK, n),
              bounds=f"recorded set of 1..3 flows from {REC_QUICK} x every history of <= {n} steps over {OPS_QUICK}",
@@ -303,6 +303,9 @@ def obligations(tier):
     ]
     if not quick:
         obs += [
+            Symx("key-matrix-unmatched", lambda X: h_matrix(X, True),
+                 bounds=f"as key-matrix x server_replay_extra in {{forward, kill, 404}}",
+                 encoded=ENCODED, must_reach=["end", "served", "unmatched", "unmatched-while-active/kill", "unmatched-while-active/404"], parallel_depth=2),
             Symx("history-form-bodies", lambda X: h_history(X, REC_FORM, 3, OPS_FORM, 4),
                  bounds=f"recorded set of 1..3 flows from {REC_FORM} x every history of <= 4 steps over {OPS_FORM}",
                  encoded=ENCODED, must_reach=reach, parallel_depth=3),
